@@ -151,7 +151,8 @@ impl Service<Request<()>> for Inner {
     fn poll_ready(&mut self, _: &mut Context<'_>) -> Poll<Result<(), Self::Error>> {
         Poll::Ready(Ok(()))
     }
-    fn call(&mut self, _req: Request<()>) -> Self::Future {
+    fn call(&mut self, req: Request<()>) -> Self::Future {
+        core::mem::forget(req); // drop glue of http::Request (Uri/Bytes vtables) is not the subject
         std::future::ready(Ok(()))
     }
 }
@@ -167,11 +168,11 @@ fn gt_select_min() {
     let digit: u8 = kani::any();
     kani::assume(digit <= 9);
     let millis: bool = kani::any();
+    // configured timeout: none, or any whole number of milliseconds below 65.536 s (covers both orders against the
+    // caller values 0..9 s / 0..9 ms); Duration::from_millis avoids the normalising division of Duration::new
     let server: Option<Duration> = if kani::any() {
-        let s: u64 = kani::any();
-        let n: u32 = kani::any();
-        kani::assume(n < 1_000_000_000);
-        Some(Duration::new(s, n))
+        let ms: u16 = kani::any();
+        Some(Duration::from_millis(ms as u64))
     } else {
         None
     };
